@@ -364,8 +364,8 @@ impl CodecGraph {
                 }
             }
             if self.mode == Mode::C01 {
-                // (b) one byte per call
-                let pieces: Vec<&[u8]> = bytes.chunks(1).collect();
+                // (b) one byte per call (packets above 2 KiB: seven bytes per call)
+                let pieces: Vec<&[u8]> = bytes.chunks(if bytes.len() <= 2048 { 1 } else { 7 }).collect();
                 self.counters.inc(K_BYTEWISE);
                 match deliver_lib(de, &pieces, exp, &mut out.impl_steps) {
                     Ok(d) => succ_des.push(d),
@@ -522,21 +522,32 @@ fn slices(mode: Mode, thorough: bool) -> Vec<Slice> {
             forces: vec![false], drops: both.clone(), setchunks: vec![], init_chunk: Some(2),
         });
     } else {
+        let c08 = mode == Mode::C08;
         v.push(Slice {
             name: "one-chunk-stream/two-types/all-timestamps/chunk-size-2",
-            types: vec![20, 17], msids: vec![0, 1, 0xFFFF_FFFF], tss: TS10.to_vec(), lens: vec![0, 1, 2, 3, 5],
+            types: vec![20, 17], msids: if c08 { vec![0, 1] } else { vec![0, 1, 0xFFFF_FFFF] }, tss: if c08 { TS6.to_vec() } else { TS10.to_vec() },
+            lens: if c08 { vec![0, 1, 3] } else { vec![0, 1, 2, 3, 5] },
             forces: both.clone(), drops: both.clone(), setchunks: vec![], init_chunk: Some(2),
         });
         v.push(Slice {
             name: "chunk-size-changes/audio",
-            types: vec![8], msids: vec![1], tss: vec![0, 1, 0xFF_FFFF, 0x100_0000], lens: vec![0, 1, 2, 127, 128, 129, 257, 4097, 8193],
-            forces: both.clone(), drops: both.clone(), setchunks: vec![1, 2, 128, 4096, 65536, 0x7FFF_FFFF], init_chunk: None,
+            types: vec![8], msids: vec![1], tss: if c08 { vec![0, 1, 0xFF_FFFF] } else { vec![0, 1, 0xFF_FFFF, 0x100_0000] },
+            lens: if c08 { vec![0, 1, 2, 129, 257] } else { vec![0, 1, 2, 127, 128, 129, 257, 1025] },
+            forces: both.clone(), drops: both.clone(), setchunks: if c08 { vec![1, 2, 128, 4096] } else { vec![1, 2, 128, 4096, 65536, 0x7FFF_FFFF] }, init_chunk: None,
         });
-        v.push(Slice {
-            name: "three-chunk-streams/audio-video-data/chunk-size-2",
-            types: vec![8, 9, 18], msids: vec![1], tss: vec![0, 1, 2], lens: vec![1, 3],
-            forces: vec![false], drops: both.clone(), setchunks: vec![], init_chunk: Some(2),
-        });
+        if c08 {
+            v.push(Slice {
+                name: "two-chunk-streams/audio-video/two-message-streams/chunk-size-2",
+                types: vec![8, 9], msids: vec![1, 0xFFFF_FFFF], tss: vec![0, 1, 2], lens: vec![1, 3],
+                forces: vec![false], drops: both.clone(), setchunks: vec![], init_chunk: Some(2),
+            });
+        } else {
+            v.push(Slice {
+                name: "three-chunk-streams/audio-video-data/chunk-size-2",
+                types: vec![8, 9, 18], msids: vec![1], tss: vec![0, 1, 2], lens: vec![1, 3],
+                forces: vec![false], drops: both.clone(), setchunks: vec![], init_chunk: Some(2),
+            });
+        }
         v.push(Slice {
             name: "two-chunk-streams/control-and-command/two-message-streams",
             types: vec![4, 5, 20], msids: vec![0, 1], tss: vec![0, 1, 2], lens: vec![1, 3],
@@ -544,8 +555,13 @@ fn slices(mode: Mode, thorough: bool) -> Vec<Slice> {
         });
         v.push(Slice {
             name: "two-chunk-streams/extended-timestamps/multi-chunk",
-            types: vec![9, 19, 18], msids: vec![1], tss: vec![0, 0xFF_FFFF, 0x100_0000, 0x1FF_FFFE, 0xFFFF_FFFF], lens: vec![0, 1, 4, 9],
+            types: vec![9, 19, 18], msids: vec![1], tss: if c08 { vec![0, 0xFF_FFFF, 0x1FF_FFFE] } else { vec![0, 0xFF_FFFF, 0x100_0000, 0x1FF_FFFE, 0xFFFF_FFFF] }, lens: if c08 { vec![0, 4, 9] } else { vec![0, 1, 4, 9] },
             forces: both.clone(), drops: both.clone(), setchunks: vec![], init_chunk: Some(4),
+        });
+        v.push(Slice {
+            name: "one-chunk-stream/chunk-size-128/lengths-around-multiples",
+            types: vec![9], msids: vec![1], tss: vec![0, 5, 0xFF_FFFF], lens: vec![0, 127, 128, 129, 256, 257],
+            forces: both.clone(), drops: both.clone(), setchunks: vec![], init_chunk: None,
         });
     }
     let _ = mode;
